@@ -963,3 +963,53 @@ def _resolve_agg(fl, d):
             continue
         return None
     return None
+
+
+def rule_S11(F, R):
+    R.begin("S11", "error discipline of sync: when a step that writes the replica's storage (apply_snapshot, apply_version, set_base_version, add_operation, sync_complete, commit) reports an error, sync returns that failure; it never carries on, because the enclosing transaction would then commit a partly applied step (a fragment of a snapshot with the base version unset) and report success")
+    import roles
+    b = sync_fn(F)
+    if b is None:
+        R.missing("S11", "the sync function")
+        return
+    writers = roles.writer_methods(F)
+
+    def writes_storage(name):
+        short = name.split("::")[-1]
+        if name.startswith(TXN + "::"):
+            return short in writers
+        if name in F.bodies and name.startswith("taskdb::"):
+            return roles.cone_reaches(F, name, lambda t: any(x.startswith(TXN + "::") and x.split("::")[-1] in writers for x in call_names(t)))
+        return False
+    c = cfg_of(b)
+    paths = SymExec(b, c, max_paths=20000).run()
+    seen = set()
+    bad = {}
+    for p in paths:
+        for (a, o, _bb) in p.atoms:
+            if a[0] != "variant" or o not in ("Err", "Break"):
+                continue
+            v = a[1]
+            if v[0] != "C" or not writes_storage(v[2]):
+                continue
+            step = v[2].split("::")[-1]
+            seen.add(step)
+            failed = p.end[0] == "return" and p.ret and ((p.ret[0] == "A" and p.ret[2] == "Err") or _has_err_residual(p.ret))
+            if not failed:
+                bad.setdefault(step, p)
+    for step in sorted(seen):
+        if step in bad:
+            R.violation("S11", b["owner_fn"], "storage-error-swallowed:" + step, "an error of %s does not end the sync with that failure (the path goes on to %s): what the step wrote before failing is committed with the rest of the sync" % (step, bad[step].end[0]), where(b, bad[step].blocks[-1]))
+        else:
+            R.ok("S11", "an error of %s fails the sync" % step, where(b))
+    R.floor("S11", "storage-writing steps of sync whose failure path was examined", len(seen), 5)
+
+
+def _has_err_residual(v, depth=0):
+    if depth > 6 or not isinstance(v, tuple):
+        return False
+    if v and v[0] == "F" and len(v) > 2 and v[2] in ("Err", "Break"):
+        return True
+    if v and v[0] == "C" and v[2].endswith("from_residual"):
+        return True
+    return any(_has_err_residual(x, depth + 1) for x in v if isinstance(x, tuple))
